@@ -105,6 +105,10 @@ func NewDispatcher(option DispatcherOption) *dispatcher {
 	if size < 1024 {
 		zoneSize = 8
 	}
+	// lru的size为0表示不限制数量，因此需要保证每个zone至少可保存1个缓存
+	if size < zoneSize {
+		zoneSize = size
+	}
 
 	// 按zoneSize与size创建二维缓存，存放的是LRU缓存实例
 	lruSize := size / zoneSize
